@@ -73,7 +73,7 @@ def standin_frameops(prop, tier, seed, scratch, root):
     """exhaustive small-scope differential check of Frame::{get,find} (assumed contracts) and the frame iterators against a Vec model"""
     import replay as RP, json
     rr = RP.run_bin('frame_ops', scratch, [], timeout=600)
-    row = {'function': 'Frame::get, Frame::find (std iterator adaptors with closures: ASSUMED contracts C19.get / C19.find); also exercises fields/fields_len/is_empty/into_iter',
+    row = {'function': 'Frame::get (iter_mut + mutating closure: ASSUMED contract C19.get); cross-check of Frame::find (proved modulo std find_map) and of fields/fields_len/is_empty/into_iter and the Response iterators',
            'engine': 'native exhaustive small-scope differential run against a Vec model (replay/src/bin/frame_ops.rs)', 'label': 'bounded',
            'bound': 'all frames of <= 4 fields over keys {a, A, b} x all sequences of <= 3 get operations over those keys; after every operation find for every key, forward/backward/mixed/owned iteration, fields_len, is_empty; then all responses of <= 4 frames with/without a trailing error: frames() / into_iter() forward, backward and every front/back split, successful_frames, is_error, into_single_frame',
            'violations': []}
